@@ -281,7 +281,7 @@ def codecs(chk):
     G('codec', 'Dr7Value', lambda: dr7value(chk))
 
 
-def dr7value(chk):
+def dr7value(chk, rule='codec'):
     I = chk.I
     D7 = DBG + 'Dr7Value'
     flags_all = sum(v for k, v in AC.ARCH.items() if k.startswith('DR7.'))
@@ -290,11 +290,11 @@ def dr7value(chk):
         # a private helper today; what it must achieve is decided through from_bits / from_bits_truncate below
         o = run1(chk, D7 + '::valid_bits', [])
         got = eval_value(o[0].val, {}) if len(o) == 1 else None
-        chk.ob('codec', 'Dr7Value::valid_bits', got == valid, 'returns %r, expected %#x (R/W+LEN fields | architectural DR7 flags)' % (got, valid))
+        chk.ob(rule, 'Dr7Value::valid_bits', got == valid, 'returns %r, expected %#x (R/W+LEN fields | architectural DR7 flags)' % (got, valid))
     vbits = [lit('v', i) if (valid >> i) & 1 else 0 for i in range(64)]
     # from_bits: Some(bits) exactly when no invalid bit is set
     o = run1(chk, D7 + '::from_bits', [BV(64, vbits)])
-    chk.ob('codec', 'Dr7Value::from_bits(valid)', len(o) == 1 and o[0].kind == 'ret' and o[0].val.vname == 'Some' and same(inner(o[0].val.fields[0]), BV(64, vbits)),
+    chk.ob(rule, 'Dr7Value::from_bits(valid)', len(o) == 1 and o[0].kind == 'ret' and o[0].val.vname == 'Some' and same(inner(o[0].val.fields[0]), BV(64, vbits)),
            'paths %r' % (o,))
     first = True
     for j in range(64):
@@ -303,15 +303,51 @@ def dr7value(chk):
         bits = sl('v', 0, 64)
         bits[j] = 1
         o = run1(chk, D7 + '::from_bits', [BV(64, bits)])
-        chk.ob('codec', 'Dr7Value::from_bits(invalid bit %d set)' % j, bool(o) and all(x.kind == 'ret' and x.val.vname == 'None' for x in o),
+        chk.ob(rule, 'Dr7Value::from_bits(invalid bit %d set)' % j, bool(o) and all(x.kind == 'ret' and x.val.vname == 'None' for x in o),
                'paths %r' % (o,), nontrivial=first)
         first = False
     o = run1(chk, D7 + '::from_bits_truncate', [BV.sym(64, 'v')])
-    chk.ob('codec', 'Dr7Value::from_bits_truncate', len(o) == 1 and same(inner(o[0].val), BV(64, vbits)), 'returns %r' % (o,))
+    chk.ob(rule, 'Dr7Value::from_bits_truncate', len(o) == 1 and same(inner(o[0].val), BV(64, vbits)), 'returns %r' % (o,))
+    # every other way to a Dr7Value keeps it inside the valid bits - for all inputs, including a flags argument that carries bits no
+    # named flag covers (bitflags values can: from_bits_retain): the conversion from Dr7Flags, and any function that assembles one
+    from ..mirwalk import ctor_refs, is_user_fn, statements
+    audited = {D7 + '::from_bits', D7 + '::from_bits_truncate'}
+    n_build = 0
+    for f in chk.facts['fns']:
+        if not is_user_fn(f) or f['name'] in audited:
+            continue
+        builds = any(s_['k'] == 'assign' and s_['rv']['k'] == 'agg' and s_['rv'].get('adt') == D7 for bi, s_ in statements(f)) or ctor_refs(f, {D7})
+        conv = f['name'] == '<%s as core::convert::From<%sDr7Flags>>::from' % (D7, DBG)
+        if not (builds or conv):
+            continue
+        if f.get('unsafe') or f['name'].endswith('_unchecked'):
+            continue        # the caller's obligation, stated in its safety contract
+        n_build += 1
+        st = State()
+        args = [I.sym_value(f['locals'][i + 1], 'a%d' % i, st, None, False) for i in range(f['argc'])]
+        o = run1(chk, f['name'], args, st)
+        bad = []
+        seen = [0]
+
+        def visit(v, x):
+            if isinstance(v, Struct) and v.name == D7:
+                seen[0] += 1
+                b = I.norm(x.st, inner(v))
+                if any(b.bits[i] != 0 for i in range(64) if not (valid >> i) & 1):
+                    bad.append(repr(b))
+            if isinstance(v, (Struct, Enum)):
+                for y in v.fields:
+                    visit(y, x)
+        for x in o:
+            if x.kind == 'ret':
+                visit(x.val, x)
+        chk.ob(rule, '%s produces a Dr7Value: no bit outside the valid ones, for every argument' % f['name'].replace(DBG, ''), bool(o) and seen[0] > 0 and not bad,
+               '; '.join(bad[:2]) or 'paths %r' % (o,), f['loc'])
+    chk.floor('functions besides from_bits / from_bits_truncate that produce a Dr7Value', n_build, 1)
     val = Struct(D7, [BV(64, [lit('d', i) if (valid >> i) & 1 else 0 for i in range(64)])])
     dbits = inner(val).bits
     o = run1(chk, D7 + '::flags', [val])
-    chk.ob('codec', 'Dr7Value::flags', len(o) == 1 and same(inner(o[0].val), BV(64, [dbits[i] if (flags_all >> i) & 1 else 0 for i in range(64)])),
+    chk.ob(rule, 'Dr7Value::flags', len(o) == 1 and same(inner(o[0].val), BV(64, [dbits[i] if (flags_all >> i) & 1 else 0 for i in range(64)])),
            'returns %r' % (o,))
     FT = adt(DBG + 'Dr7Flags')
     fl = I.sym_value(FT, 'fl')
@@ -323,14 +359,14 @@ def dr7value(chk):
         o = run1(chk, D7 + '::' + meth, [ref, fl], st)
         fin = inner(o[0].st.mem[('arg', 'self')]) if len(o) == 1 else None
         want = BV(64, [f(x, y) for x, y in zip(dbits, fb)])
-        chk.ob('codec', 'Dr7Value::' + meth, fin is not None and same(fin, want), 'final %r expected %r' % (fin, want))
+        chk.ob(rule, 'Dr7Value::' + meth, fin is not None and same(fin, want), 'final %r expected %r' % (fin, want))
     for value in (0, 1):
         st = State()
         ref = arg_obj(st, 'self', val)
         o = run1(chk, D7 + '::set_flags', [ref, fl, BV.const(1, value)], st)
         fin = inner(o[0].st.mem[('arg', 'self')]) if len(o) == 1 else None
         want = BV(64, [(b_or(x, y) if value else b_and(x, b_not(y))) for x, y in zip(dbits, fb)])
-        chk.ob('codec', 'Dr7Value::set_flags(%d)' % value, fin is not None and same(fin, want), 'final %r expected %r' % (fin, want))
+        chk.ob(rule, 'Dr7Value::set_flags(%d)' % value, fin is not None and same(fin, want), 'final %r expected %r' % (fin, want))
     BC = DBG + 'BreakpointCondition'
     BS = DBG + 'BreakpointSize'
     for n in range(4):
@@ -345,7 +381,7 @@ def dr7value(chk):
                 ref = arg_obj(st, 'self', Struct(D7, [BV(64, gb)]))
                 o = run1(chk, D7 + '::' + get, [ref, nv], st)
                 ok = len(o) == 1 and o[0].kind == 'ret' and isinstance(o[0].val, Enum) and o[0].val.vname == vn
-                chk.ob('codec', 'Dr7Value::%s<Dr%d>(field=%d)' % (get, n, enc), ok, 'returns %r, expected %s' % (o, vn))
+                chk.ob(rule, 'Dr7Value::%s<Dr%d>(field=%d)' % (get, n, enc), ok, 'returns %r, expected %s' % (o, vn))
                 # setter: only bits base, base+1 change
                 st = State()
                 ref = arg_obj(st, 'self', val)
@@ -354,7 +390,7 @@ def dr7value(chk):
                 wb = list(dbits)
                 wb[base] = enc & 1
                 wb[base + 1] = (enc >> 1) & 1
-                chk.ob('codec', 'Dr7Value::%s<Dr%d>(%s)' % (set_, n, vn), fin is not None and same(fin, BV(64, wb)),
+                chk.ob(rule, 'Dr7Value::%s<Dr%d>(%s)' % (set_, n, vn), fin is not None and same(fin, BV(64, wb)),
                        'final %r, expected bits %d..%d := %d and all others unchanged' % (fin, base, base + 1, enc))
 
 
